@@ -150,7 +150,9 @@ def main(argv=None):
         print(f"VACUOUS {name}: {msg}")
     for name, msg in inconclusive:
         print(f"INCONCLUSIVE {name}: {msg}")
-    for name, msg in errors:
+    if len(errors) > 12:
+        print(f"... {len(errors) - 12} more harness errors not shown")
+    for name, msg in errors[:12]:
         print(f"HARNESS-ERROR {name}: {msg.splitlines()[0] if msg else msg}")
         if msg and "\n" in msg:
             print("    " + "\n    ".join(msg.splitlines()[1:12]))
